@@ -382,16 +382,21 @@ class C12(Prop):
             if len(b) >= 2: out.append(b'\x7f' + refcbor.head(3, 1) + b[:1] + refcbor.head(3, len(b) - 1) + b[1:] + b'\xff')
             return out
         vals = [b'\xf6', b'\x00', b'\x40', b'\x41\x01', b'\x26', b'\x80', b'\xa0', b'\x61a']
+        # the other entries: labels of both kinds on both sides of the repeated one in every order the crate knows (integer value,
+        # text length, text bytes), so that a lookup which depends on arrival order, on the running maximum or on a comparison that
+        # is not antisymmetric misses the repeat (seeded C07-r5, C08-r5, C12-r5)
+        OTHERS = [99, 100, 101, 102, 103, 104, -99, 10, 11, 23, 25, 255, 257, -2, -26, 70000, -70000, b'b', b'ab', b'abc', b'z', b'aa', b'ba', 'é'.encode(), b'zz', b'a' * 24]
         def dupmap(t):
-            n = r.choice([2, 2, 3, 4, 6])
-            lab = r.choice(labs) if r.random() < 0.8 else r.choice([b'a', b'ab', b'claim', b''])
+            n = r.choice([2, 2, 3, 3, 4, 6])
+            lab = r.choice(labs) if r.random() < 0.7 else r.choice([b'a', b'ab', b'claim', b'', b'b', b'zz'])
             i, j = sorted(r.sample(range(n), 2))
+            pool = [x for x in OTHERS if x != lab]; r.shuffle(pool)
             ent = []
             for p in range(n):
                 if p in (i, j): ent.append(r.choice(key_encs(lab)) + r.choice(vals))
                 else:
-                    o = r.choice([x for x in [99, 100, 101, 102, 103, 104, -99] if x != lab]) + p * 10
-                    ent.append(refcbor.encode(I(o)) + r.choice(vals[:4]))
+                    o = pool.pop()
+                    ent.append((refcbor.encode(I(o)) if isinstance(o, int) else refcbor.head(3, len(o)) + o) + r.choice(vals[:4]))
             return refcbor.head(5, n) + b''.join(ent)
         for _ in range(budget(tier, 6000, 100000)):
             t = r.choice(['Header', 'CoseKey', 'ClaimsSet', 'prot', 'sig', 'rcp', 'csig', 'unprot'])
@@ -516,8 +521,16 @@ class C13(Prop):
         for _ in range(budget(tier, 800, 10000)):
             t = r.choice(TYPED_TYPES)
             ops.append(mk('layer %s b%s' % (t, g.venc(g.wire(t)).hex()), k='layer'))
+        # encode side on values as the decoders leave them (protected headers holding stored bytes, at every carrier and alone):
+        # to_vec must be the serialisation of to_cbor_value (seeded C13-r5: to_vec of a ProtectedHeader echoing the stored bytes)
+        g2 = T(seed + 11, valid=1.0, orig_p=0.7); E = C02.EMPTY
+        forms_ = [('ProtectedHeader', ph) for ph in ('(ph b %s)' % E, '(ph ba0 %s)' % E, '(ph ba1013806 (hdr A-7 (crit) - b b b (cs) (rest)))', '(ph ba10126 (hdr A-7 (crit) - b3131 b b (cs) (rest)))', '(ph - (hdr A-7 (crit) - b b b (cs) (rest)))')]
+        for _ in range(budget(tier, 300, 5000)):
+            t = r.choice(TYPED_TYPES); forms_.append((t, g2.typed(t, wild=False)))
+        for i, (t, x) in enumerate(forms_):
+            ops.append(mk('tov %s %s' % (t, x), k='pair-value', pair=i)); ops.append(mk('enc %s %s' % (t, x), k='pair-bytes', pair=i))
         return ops
-    def __init__(self): self.accepted = {}
+    def __init__(self): self.accepted = {}; self.pairs = {}
     def judge(self, o, impl, model):
         m = o['meta']
         if m.get('base'):
@@ -533,6 +546,15 @@ class C13(Prop):
                 else: rs.append(render(it[i + 1]) if it[i] == 'ok' else 'err ' + it[i + 1]); i += 2
             if len(rs) >= 2 and rs[0] != rs[1]: return ('fail', 'from_slice differs from parse-then-convert')
             if len(rs) == 4 and rs[2] != rs[3]: return ('fail', 'to_vec differs from convert-then-serialise')
+        if m.get('k') == 'pair-value': self.pairs[m['pair']] = impl
+        if m.get('k') == 'pair-bytes' and m['pair'] in self.pairs:
+            tv = self.pairs.pop(m['pair']); m['value_layer'] = tv[:400]      # kept in the replay: what `tov` of the same value gave
+            if tv.startswith('ok ') != impl.startswith('ok b'):
+                if not (tv.startswith('panic') or impl.startswith('panic')): return ('fail', 'to_vec and to_cbor_value disagree on whether the value can be encoded')
+            elif tv.startswith('ok '):
+                try: want = refcbor.encode(forms.sx_value(parse(tv)[1])).hex()
+                except Exception: want = None
+                if want is not None and want != impl[4:]: return ('fail', 'to_vec differs from convert-then-serialise')
         if m.get('k') in ('suffix', 'tsuffix'):
             op = 'layer' if m['k'] == 'suffix' else 'dect'
             if self.accepted.get((m['t'], m['parent'], op)) and impl != 'err Extra': return ('fail', 'accepted input plus a suffix was not rejected with the extraneous-data error')
